@@ -1,0 +1,37 @@
+//go:build verif
+
+package config
+
+import (
+	"sort"
+
+	"github.com/jmattheis/goverter/pkgload"
+)
+
+// NewLoader loads the packages Parse would load for raw. It is only compiled
+// with the "verif" build tag.
+func NewLoader(raw *Raw) (*pkgload.PackageLoader, error) {
+	return pkgload.New(raw.WorkDir, raw.BuildTags, getPackages(raw))
+}
+
+// ParseWithLoader is Parse with an already loaded package set, so that
+// verification harnesses can evaluate many setting variants against one
+// loaded program. It is only compiled with the "verif" build tag.
+func ParseWithLoader(raw *Raw, loader *pkgload.PackageLoader) ([]*Converter, error) {
+	ctx := &context{Loader: loader, EnumTransformers: raw.EnumTransformers, WorkDir: raw.WorkDir}
+
+	converters := []*Converter{}
+	for _, rawConverter := range raw.Converters {
+		converter, err := parseConverter(ctx, &rawConverter, raw.Global)
+		if err != nil {
+			return nil, err
+		}
+		converters = append(converters, converter)
+	}
+
+	sort.Slice(converters, func(i, j int) bool {
+		return converters[i].Name < converters[j].Name
+	})
+
+	return converters, nil
+}
